@@ -539,7 +539,9 @@ ExternalEval(r, fams) ==
                      cj |-> {ixf(pr.formulas[k].f) : k \in {m \in DOMAIN pr.formulas : pr.formulas[m].conj}}]]])
       hasDir(i, fwd) == \E j \in DOMAIN shape[i] : shape[i][j].fwd = fwd
       keys == {<<i, d>> : i \in DOMAIN fams, d \in BOOLEAN}
-      live == TLCEval({ky \in keys : hasDir(ky[1], ky[2])})
+      \* a direction is judged when the flags ask for it (a family without any problem of that direction refutes nothing)
+      wanted(i, fwd) == fams[i].flags.direction = "universal" \/ (fams[i].flags.direction = "forward") = fwd
+      live == TLCEval({ky \in keys : wanted(ky[1], ky[2])})
       FamVal(i, fwd, fv) ==
         LET ProbVal(pb) == Min3(FoldSet(LAMBDA k, acc : Min3(acc, fv[k]), 2, pb.ax), 2 - FoldSet(LAMBDA k, acc : Min3(acc, fv[k]), 2, pb.cj))
         IN FoldSet(LAMBDA j, acc : IF shape[i][j].fwd = fwd THEN Max3(acc, ProbVal(shape[i][j])) ELSE acc, 0, DOMAIN shape[i])
@@ -556,7 +558,10 @@ ExternalEval(r, fams) ==
                         pv[CHOOSE k \in DOMAIN r.placeholders : r.placeholders[k].c = key[1]]]
             sgP == [key \in {"#" \o r.placeholders[k].c : k \in DOMAIN r.placeholders} |->
                         pv[CHOOSE k \in DOMAIN r.placeholders : "#" \o r.placeholders[k].c = key]]
-        IN [gs |-> TLCEval([k \in DOMAIN df |-> IdxL(Ground(df[k], envF))]),
+            \* anthem's OUTPUT formulas carry placeholders as function constants only: a symbolic constant that still bears the name
+            \* of a placeholder there is an ordinary symbol (reading it as the placeholder would hide a missing replacement)
+            envOut == [key \in {ky \in DOMAIN envF : ky[2] # "ph"} |-> envF[key]]
+        IN [gs |-> TLCEval([k \in DOMAIN df |-> IdxL(Ground(df[k], envOut))]),
             assm |-> TLCEval([k \in DOMAIN ugForms |-> IdxL(Ground(ugForms[k].a.f, envF))]),
             gR |-> IdxR(ProgramGroundPh(r.right, sgP)),
             gRP |-> IdxR(ProgramGroundPh(SelectSeq(r.right, LAMBDA x : IsPrivHead(x, rpriv)), sgP)),
@@ -596,17 +601,17 @@ ExternalEval(r, fams) ==
                  ELSE IF e.d2 > 0 THEN [I |-> UnIndex(e.w2.I, nb), env |-> e.w2.env, anthem |-> "no problem of the direction is refuted", reference |-> what2] ELSE <<>>,
          groups |-> 1, ident |-> 0, atoms |-> nb.n]
       famOuts == [i \in DOMAIN fams |->
-                    (IF hasDir(i, TRUE) THEN <<Out(r, "C02.forward_refuted_iff_behavioural_difference",
+                    (IF wanted(i, TRUE) THEN <<Out(r, "C02.forward_refuted_iff_behavioural_difference",
                                                    Fin(res.fam[<<i, TRUE>>], "a forward problem is refuted", "(assumptions, left admits I, right-private part determined, right rejects I)"),
                                                    ToString(fams[i].flags))>> ELSE <<>>)
-                    \o (IF hasDir(i, FALSE) THEN <<Out(r, "C02.backward_refuted_iff_behavioural_difference",
+                    \o (IF wanted(i, FALSE) THEN <<Out(r, "C02.backward_refuted_iff_behavioural_difference",
                                                        Fin(res.fam[<<i, FALSE>>], "a backward problem is refuted", "(assumptions, right admits I, left-private part determined, left rejects I)"),
                                                        ToString(fams[i].flags))>> ELSE <<>>)]
   IN FlattenSeq(famOuts)
      \o <<Out(r, "C19.external_families_agree_forward", Fin(res.c19[TRUE], "refuted in one family", "refuted in another family"), ""),
           Out(r, "C19.external_families_agree_backward", Fin(res.c19[FALSE], "refuted in one family", "refuted in another family"), "")>>
 EvalExternal(r) ==
-  LET fams == SelectSeq(r.families, LAMBDA fm : "problems" \in DOMAIN fm)
+  LET fams == SelectSeq(r.families, LAMBDA fm : "problems" \in DOMAIN fm)   \* accepted families (possibly with an empty problem list)
   IN IF fams = <<>> THEN <<Skip(r, "C02.forward_refuted_iff_behavioural_difference", "task refused")>>
      ELSE ExternalEval(r, fams)
 
